@@ -9,7 +9,7 @@ Variable dm : bool.                     (* modified defaults present *)
 Variable cfg : config.
 Variable O : oracles E S A L.
 
-Notation cp := create_prog_faithful.
+Notation cp := create_prog_code.
 Notation callP := (call dm cfg O cp).
 Notation runP := (run dm cfg O cp).
 Notation specP := (spec dm cfg O cp).
@@ -86,7 +86,7 @@ Definition answers_track (last : option E) (m : st) : Prop :=
   end.
 
 (* code as it stands: log_created is only known to be clear when it matters (debug) *)
-Definition inv_faithful (last : option E) (m : st) : Prop :=
+Definition inv_before_fix (last : option E) (m : st) : Prop :=
   (c_debug cfg = true -> st_created m = false) /\ answers_track last m.
 
 (* repaired protocol *)
@@ -110,9 +110,9 @@ Ltac break_state m := destruct m as [ans inf crt lg tmp ifd]; simpl in *.
 (* ---------------------------------------------------------------------------------------------- *)
 (* one step, code as it stands                                                                    *)
 (* ---------------------------------------------------------------------------------------------- *)
-Lemma faithful_step : forall last m e s,
-  inv_faithful last m -> event_clean (e, s) = true ->
-  inv_faithful (next_last last (e, s)) (fst (callP call_prog_faithful m e s)).
+Lemma before_fix_step : forall last m e s,
+  inv_before_fix last m -> event_clean (e, s) = true ->
+  inv_before_fix (next_last last (e, s)) (fst (callP call_prog_before_fix m e s)).
 Proof.
   intros last m e s [Hc Ht] Hclean. break_state m.
   destruct e as [x|].
@@ -146,13 +146,13 @@ Proof.
         (split; [intros; reflexivity | exact Ht]).
 Qed.
 
-Lemma faithful_run : forall h last m,
-  inv_faithful last m -> forallb event_clean h = true ->
-  inv_faithful (fold_left next_last h last) (runP call_prog_faithful m h).
+Lemma before_fix_run : forall h last m,
+  inv_before_fix last m -> forallb event_clean h = true ->
+  inv_before_fix (fold_left next_last h last) (runP call_prog_before_fix m h).
 Proof.
   induction h as [|[e s] h IH]; intros last m Hinv Hcl; simpl in *; [exact Hinv|].
   apply andb_true_iff in Hcl. destruct Hcl as [H1 H2].
-  apply IH; [|exact H2]. apply (faithful_step last m e s Hinv H1).
+  apply IH; [|exact H2]. apply (before_fix_step last m e s Hinv H1).
 Qed.
 
 (* ---------------------------------------------------------------------------------------------- *)
@@ -204,12 +204,12 @@ Lemma filter_app' : forall (f : line E S L -> bool) a b, filter f (a ++ b) = fil
 Proof. intros. apply filter_app. Qed.
 
 (* code as it stands *)
-Lemma faithful_outcome : forall last m e s,
-  inv_faithful last m ->
-  snd (callP call_prog_faithful m e s)
+Lemma before_fix_outcome : forall last m e s,
+  inv_before_fix last m ->
+  snd (callP call_prog_before_fix m e s)
   = match e with
-    | Some _ => snd (callP call_prog_faithful (init_state None) (effective last e) s)
-    | None => strip_inferred (snd (callP call_prog_faithful (init_state None) (effective last e) s))
+    | Some _ => snd (callP call_prog_before_fix (init_state None) (effective last e) s)
+    | None => strip_inferred (snd (callP call_prog_before_fix (init_state None) (effective last e) s))
     end.
 Proof.
   intros last m e s [Hc Ht]. break_state m.
@@ -316,7 +316,7 @@ Qed.
 Definition inv_configured (a : A) (m : st) : Prop :=
   st_answers m = Some a /\ st_inferring m = false /\ st_created m = false.
 
-Definition known_prog (p : call_program) : Prop := p = call_prog_faithful \/ p = call_prog_repaired.
+Definition known_prog (p : call_program) : Prop := p = call_prog_before_fix \/ p = call_prog_repaired.
 
 Lemma configured_step : forall p a m e s, known_prog p -> inv_configured a m ->
   inv_configured a (fst (callP p m e s))
@@ -340,7 +340,7 @@ Qed.
 (* ---------------------------------------------------------------------------------------------- *)
 (* the theorems                                                                                   *)
 (* ---------------------------------------------------------------------------------------------- *)
-Lemma init_inv_faithful : inv_faithful None (init_state None).
+Lemma init_inv_before_fix : inv_before_fix None (init_state None).
 Proof. split; [intros; reflexivity | split; reflexivity]. Qed.
 
 Lemma init_inv_repaired : inv_repaired None (init_state None).
@@ -367,14 +367,14 @@ Proof.
 Qed.
 
 (* graders without configured answers, code as it stands: histories of clean events *)
-Theorem faithful_history_independent_clean : forall h e s,
+Theorem before_fix_history_independent_clean : forall h e s,
   forallb event_clean h = true ->
-  snd (callP call_prog_faithful (runP call_prog_faithful (init_state None) h) e s)
-  = specP call_prog_faithful None h e s.
+  snd (callP call_prog_before_fix (runP call_prog_before_fix (init_state None) h) e s)
+  = specP call_prog_before_fix None h e s.
 Proof.
   intros h e s Hcl. unfold spec. rewrite last_supplied_step.
-  pose proof (faithful_run h None _ init_inv_faithful Hcl) as I1.
-  rewrite (faithful_outcome _ _ e s I1). destruct e; reflexivity.
+  pose proof (before_fix_run h None _ init_inv_before_fix Hcl) as I1.
+  rewrite (before_fix_outcome _ _ e s I1). destruct e; reflexivity.
 Qed.
 
 (* the full statement for the repaired protocol, configured or not *)
@@ -523,8 +523,8 @@ Notation body_t := (switch -> switch * R * bool).
 (* bodies may do anything with the flag (nested graders), but no code writes the default *)
 Definition keeps_default (b : body_t) : Prop := forall w, sw_default (fst (fst (b w))) = sw_default w.
 
-Lemma with_switch_faithful : forall arg (b : body_t) w,
-  with_switch cm_prog_faithful arg b w
+Lemma with_switch_before_fix : forall arg (b : body_t) w,
+  with_switch cm_prog_code arg b w
   = (let '(w2, r, raised) := b (mkSwitch arg (sw_default w)) in
      (mkSwitch (sw_default w2) (sw_default w2), r, raised)).
 Proof.
@@ -535,10 +535,10 @@ Qed.
 
 (* on every exit (normal or exceptional) the flag is back at the default, and the body saw its own setting *)
 Theorem switch_restored : forall arg (b : body_t) w, keeps_default b ->
-  let '(w', _, _) := with_switch cm_prog_faithful arg b w in
+  let '(w', _, _) := with_switch cm_prog_code arg b w in
   sw_flag w' = sw_default w /\ sw_default w' = sw_default w.
 Proof.
-  intros arg b w K. rewrite with_switch_faithful.
+  intros arg b w K. rewrite with_switch_before_fix.
   pose proof (K (mkSwitch arg (sw_default w))) as K1.
   destruct (b {| sw_flag := arg; sw_default := sw_default w |}) as [[w2 r] raised]. simpl in *. auto.
 Qed.
@@ -549,12 +549,12 @@ Definition pristine (d : bool) : switch := mkSwitch d d.
    returns when run alone on the pristine switch, and the switch ends pristine *)
 Theorem switch_history_independent : forall (calls : list (bool * body_t)) d,
   Forall (fun c => keeps_default (snd c)) calls ->
-  run_switch cm_prog_faithful calls (pristine d)
+  run_switch cm_prog_code calls (pristine d)
   = (pristine d,
-     map (fun c => let '(_, r, raised) := with_switch cm_prog_faithful (fst c) (snd c) (pristine d) in (r, raised)) calls).
+     map (fun c => let '(_, r, raised) := with_switch cm_prog_code (fst c) (snd c) (pristine d) in (r, raised)) calls).
 Proof.
   intros calls d H. induction H as [|[arg b] calls K _ IH]; simpl; [reflexivity|].
-  rewrite with_switch_faithful. simpl in K. pose proof (K (mkSwitch arg d)) as K1. simpl.
+  rewrite with_switch_before_fix. simpl in K. pose proof (K (mkSwitch arg d)) as K1. simpl.
   destruct (b {| sw_flag := arg; sw_default := d |}) as [[w2 r] raised] eqn:B. simpl in K1. subst.
   change {| sw_flag := sw_default w2; sw_default := sw_default w2 |} with (pristine (sw_default w2)).
   rewrite IH. reflexivity.
@@ -597,22 +597,22 @@ Definition O1 : oracles Z Z Z Z := mkOracles
 
 Definition reused (dm : bool) (cfg : config) (O : oracles Z Z Z Z) (p : call_program) (configured : option Z)
            (h : list (event Z Z)) (e : option Z) (s : Z) : outcome Z Z Z :=
-  snd (call dm cfg O create_prog_faithful p (run dm cfg O create_prog_faithful p (init_state configured) h) e s).
+  snd (call dm cfg O create_prog_code p (run dm cfg O create_prog_code p (init_state configured) h) e s).
 
 Definition demanded (dm : bool) (cfg : config) (O : oracles Z Z Z Z) (p : call_program) (configured : option Z)
            (h : list (event Z Z)) (e : option Z) (s : Z) : outcome Z Z Z :=
-  spec dm cfg O create_prog_faithful p configured h e s.
+  spec dm cfg O create_prog_code p configured h e s.
 
 (* after ('a,,b', 'a,b') the call ('c,d', 'c,d') raises; a fresh grader grades it correct *)
 Lemma w1_poison :
-  reused false (mkConfig false) O1 call_prog_faithful None [(Some 0, 0)] (Some 1) 1 = ORaise (ce 3)
-  /\ demanded false (mkConfig false) O1 call_prog_faithful None [(Some 0, 0)] (Some 1) 1 = ORet ok_entry None.
+  reused false (mkConfig false) O1 call_prog_before_fix None [(Some 0, 0)] (Some 1) 1 = ORaise (ce 3)
+  /\ demanded false (mkConfig false) O1 call_prog_before_fix None [(Some 0, 0)] (Some 1) 1 = ORet ok_entry None.
 Proof. split; vm_compute; reflexivity. Qed.
 
 (* the poison also displaces a previously supplied valid expect:  ('c,d','c,d'), ('a,,b','a,b'), (none,'c,d') *)
 Lemma w1_poison_after_valid :
-  reused false (mkConfig false) O1 call_prog_faithful None [(Some 1, 1); (Some 0, 0)] None 1 = ORaise (ce 3)
-  /\ demanded false (mkConfig false) O1 call_prog_faithful None [(Some 1, 1); (Some 0, 0)] None 1 = ORet ok_entry None.
+  reused false (mkConfig false) O1 call_prog_before_fix None [(Some 1, 1); (Some 0, 0)] None 1 = ORaise (ce 3)
+  /\ demanded false (mkConfig false) O1 call_prog_before_fix None [(Some 1, 1); (Some 0, 0)] None 1 = ORet ok_entry None.
 Proof. split; vm_compute; reflexivity. Qed.
 
 (* the same histories under the repaired protocol *)
@@ -634,17 +634,17 @@ Definition O2 : oracles Z Z Z Z := mkOracles
   (fun _ => []).
 
 Lemma w2_debuglog :
-  reused false (mkConfig true) O2 call_prog_faithful None [(Some 0, 0)] (Some 1) 1
+  reused false (mkConfig true) O2 call_prog_before_fix None [(Some 0, 0)] (Some 1) 1
     = ORet ok_entry (Some [LVersion; LResp 0; LInferred 0; LInferred 1; LChk 7])
-  /\ demanded false (mkConfig true) O2 call_prog_faithful None [(Some 0, 0)] (Some 1) 1
+  /\ demanded false (mkConfig true) O2 call_prog_before_fix None [(Some 0, 0)] (Some 1) 1
     = ORet ok_entry (Some [LVersion; LResp 1; LInferred 1; LChk 7]).
 Proof. split; vm_compute; reflexivity. Qed.
 
 (* W3 -- a valid expect with a non-text input (5) raises in ensure_text_inputs after the log was created *)
 Lemma w3_debuglog_nontext :
-  reused false (mkConfig true) O2 call_prog_faithful None [(Some 1, 5)] (Some 1) 1
+  reused false (mkConfig true) O2 call_prog_before_fix None [(Some 1, 5)] (Some 1) 1
     = ORet ok_entry (Some [LVersion; LResp 5; LInferred 1; LInferred 1; LChk 7])
-  /\ demanded false (mkConfig true) O2 call_prog_faithful None [(Some 1, 5)] (Some 1) 1
+  /\ demanded false (mkConfig true) O2 call_prog_before_fix None [(Some 1, 5)] (Some 1) 1
     = ORet ok_entry (Some [LVersion; LResp 1; LInferred 1; LChk 7]).
 Proof. split; vm_compute; reflexivity. Qed.
 
@@ -656,18 +656,18 @@ Lemma w2_repaired :
 Proof. split; vm_compute; reflexivity. Qed.
 
 (* the full statement is false of the code as it stands *)
-Lemma faithful_full_statement_false :
+Lemma before_fix_full_statement_false :
   ~ (forall dm cfg (O : oracles Z Z Z Z) configured h e s,
-       reused dm cfg O call_prog_faithful configured h e s = demanded dm cfg O call_prog_faithful configured h e s).
+       reused dm cfg O call_prog_before_fix configured h e s = demanded dm cfg O call_prog_before_fix configured h e s).
 Proof.
   intros H. pose proof (H false (mkConfig false) O1 None [(Some 0, 0)] (Some 1) 1) as H1.
   destruct w1_poison as [A B]. rewrite A, B in H1. discriminate H1.
 Qed.
 
-Lemma faithful_full_statement_false_debug :
+Lemma before_fix_full_statement_false_debug :
   ~ (forall dm cfg (O : oracles Z Z Z Z) configured h e s,
        (forall x, match o_schema O x with inl _ => True | inr a0 => match o_post O a0 with inl _ => False | inr _ => True end end) ->
-       reused dm cfg O call_prog_faithful configured h e s = demanded dm cfg O call_prog_faithful configured h e s).
+       reused dm cfg O call_prog_before_fix configured h e s = demanded dm cfg O call_prog_before_fix configured h e s).
 Proof.
   intros H.
   assert (P : forall x, match o_schema O2 x with inl _ => True | inr a0 => match o_post O2 a0 with inl _ => False | inr _ => True end end).
@@ -678,9 +678,9 @@ Qed.
 
 (* non-vacuity: a clean history on which the code as it stands does what the property demands, and the outcome is a grade *)
 Lemma clean_example :
-  reused false (mkConfig true) O2 call_prog_faithful None [(Some 1, 0); (None, 1); (Some 2, 2)] None 2
+  reused false (mkConfig true) O2 call_prog_before_fix None [(Some 1, 0); (None, 1); (Some 2, 2)] None 2
     = ORet ok_entry (Some [LVersion; LResp 2; LChk 7])
-  /\ demanded false (mkConfig true) O2 call_prog_faithful None [(Some 1, 0); (None, 1); (Some 2, 2)] None 2
+  /\ demanded false (mkConfig true) O2 call_prog_before_fix None [(Some 1, 0); (None, 1); (Some 2, 2)] None 2
     = ORet ok_entry (Some [LVersion; LResp 2; LChk 7])
   /\ forallb (event_clean (mkConfig true) O2) [(Some 1, 0); (None, 1); (Some 2, 2)] = true.
 Proof. repeat split; vm_compute; reflexivity. Qed.
